@@ -135,8 +135,9 @@ class ImmuneSystem:
             structure_hash=peptide.structure_hash,
         )
 
-        if recalled is not None:
-            # Known threat - fast response
+        if recalled is not None and not tcell.is_anergic and tcell.profile.check(peptide):
+            # Known threat - fast response (memory is a second signal only:
+            # behaviour inside the current baseline is never a threat)
             return ImmuneResponse(
                 agent_id=agent_id,
                 threat_level=recalled.threat_level,
